@@ -81,7 +81,10 @@ def serialize_ndarray(arr, use_bytes=False, bytes_type=bytes):
         data = arr.tolist()
 
         if np.issubdtype(arr.dtype, np.floating):
-            _replace_float_with_int(data)
+            if arr.ndim:
+                _replace_float_with_int(data)
+            elif data.is_integer():
+                data = int(data)  # 0-d array: tolist() gave a bare float
 
     return dict(type='array',
                 data=data,
